@@ -7,10 +7,14 @@
    Paths are compared after lexical resolution (`resolve`: '/'-split, "." dropped, ".." pops;
    no symlinks).
 
-   Shape of the result: with today's validator (`accepts_today`, which accepts every name) both
-   properties are REFUTED (witnesses (a)-(h), C26_today_refuted, C26_today_clash_refuted); with
-   the candidate validator `valid_name` they are PROVED in full (C26_contained, C26_disjoint,
-   C26_no_dir_clash and their boolean forms). *)
+   Shape of the result: for a server WITHOUT name validation (`accepts_today` = accept every
+   name: the code up to /repo 7a9106f) both properties are REFUTED (witnesses (a)-(h),
+   C26_today_refuted, C26_today_clash_refuted; all of them were reproduced on the real server and
+   stay in the harness's name list); with the validator `valid_name` they are PROVED in full
+   (C26_contained, C26_disjoint, C26_no_dir_clash and their boolean forms).  Since /repo 7a9106f
+   the server's `utilities::validate_db_name` is this `valid_name`, applied to the target name of
+   add / copy / rename; checks/c26.py finds it in the source and runs the model in strict mode,
+   so a name the server accepts but `valid_name` rejects (or vice versa) is a disagreement. *)
 From Agdb Require Import Bytes Paths PathsProofs.
 Import String.StringSyntax.
 Local Open Scope nat_scope.
